@@ -31,14 +31,20 @@ CLAIM = dict(
          '(5) add_many (C02_add_many_step, _final, _loop_step): every rounding step of add_many is such a truncate call and '
          'obeys the same bound; the result is the final rounding step applied to the running sum, which the loop changes only '
          'by add and by rounding steps. '
-         'NOT proved in Coq, checked numerically by search() on every run: use_stab=True (the scaling bookkeeping is C16, the '
-         'stabilised orthogonalisation is C04); the two Eckart-Young clauses (error <= root-sum-square of the best unfolding '
-         'errors at the returned ranks; no rank above the smallest one meeting the per-unfolding budget for e above the '
-         'rounding floor) which need singular-value interlacing. "The cap does not bind" is formalised as "every returned '
-         'rank < int(r)". The theorems are about exact real arithmetic: in binary64 the eigen-decomposition mode loses singular '
-         'values below about sqrt(eps)*|unfolding| (known finding C02/eigh-mode-sqrt-eps-floor, reported on every run by a '
-         'fixed regression input; search() uses the same tight floor 1e-12*|Y| in both modes and tags only eigh-mode excesses '
-         '<= 1e-6*|Y| on inputs where the SVD mode meets the bound).',
+         '(6) use_stab=True (C02_truncate_error_stab): same conclusions, both modes, exact arithmetic, under the root law '
+         '(2**(p/d))^d = 2^p for the final per-core factor (satisfiable: C02_root_law_ex). '
+         '(7) Rank clause "no returned rank exceeds the smallest rank meeting the budget" - PARTIAL: matrix level in SVD mode '
+         '(C02_skeleton_rank_minimal: every smaller rank discards more than e^2 of the squared singular values of that '
+         'matrix) and the first truncated bond k = d-1 of truncate in SVD mode (C02_first_bond_rank_partial with budget '
+         'e^2 |Y|^2/(d-1); C02_first_bond_svd: those singular values are singular values of the (d-1)-unfolding of the tensor, '
+         'X = (P U) diag(s) Vt with P U orthonormal). Missing for that clause: the other bonds (interlacing), the '
+         'eigen-decomposition mode at tensor level, and Eckart-Young (tail of the sorted singular values = best error). '
+         'NOT proved in Coq, checked numerically by search() on every run: the clause "error <= root-sum-square of the best '
+         'unfolding errors at the returned ranks" and the rank clause beyond (7). "The cap does not bind" is formalised as '
+         '"every returned rank < int(r)". The theorems are about exact real arithmetic: in binary64 the eigen-decomposition '
+         'mode loses singular values below about sqrt(eps)*|unfolding| (known finding C02/eigh-mode-sqrt-eps-floor, reported on '
+         'every run by a fixed regression input; search() uses the same tight floor 1e-12*|Y| in both modes and tags only '
+         'eigh-mode excesses <= 1e-6*|Y| on inputs where the SVD mode meets the bound).',
     note='Model tied to /repo on every run: float instance with replayed LAPACK calls (ranks exact, dense tensor 1e-9) for '
          'matrix_svd, matrix_skeleton (l, r, m, rel), truncate (all four flag combinations, orth on/off) and add_many; '
          'exact rank-rule stream (Z instance vs the implementation on integer diagonal matrices incl. exact ties); threshold '
